@@ -90,6 +90,7 @@ type listener struct {
 func (l *listener) send(ctx context.Context, event any) (ok bool, active bool) {
 	l.m.RLock()
 	defer l.m.RUnlock()
+	verifhook.Yield("bus.listener.send.locked")
 
 	select {
 	case <-ctx.Done():
